@@ -251,9 +251,12 @@ theorem advertised_eq_xep_hash_of_answer {β : Type} (H : Str → β) (c : Clien
 sequence of reconfigurations, publications (with a fresh presence or one derived from `clientPresence()`, which already
 carries an older `ver`) and queries, each presence carries `ver` = hash of `capabilities()` of the configuration in
 force when it is emitted, and a disco#info `get` for `node#anything` under that configuration is answered with an info
-set of exactly that `ver`.  (Between two publications the advertised hash can be stale; nothing is claimed there.) -/
+set of exactly that `ver` — for ANY capabilities node string (with `#`, ending in `#`, …): the answer only requires the
+queried node to start with the configured one.  The plain node and a query without node are answered with the same info
+set (`advertised_node_always_answered`).  (Between two publications the advertised hash can be stale; nothing is claimed
+there.  With an empty capabilities node the presence carries no caps element: nothing is advertised.) -/
 theorem every_published_ver_is_answered {β : Type} (H : Str → β) (s : ClientSt β) (ops : List ClientOp)
-    (c : ClientCfg) (v : β) (hm : (c, ClientOut.presence v) ∈ (clientRun H s ops).2) :
+    (c : ClientCfg) (v : β) (hm : (c, ClientOut.presence (some v)) ∈ (clientRun H s ops).2) :
     v = advertisedVer H c ∧ ∀ x : Str, (answeredInfo c (c.node ++ '#' :: x)).map (ver H) = some v := by
   induction ops generalizing s with
   | nil => simp [clientRun] at hm
@@ -267,17 +270,31 @@ theorem every_published_ver_is_answered {β : Type} (H : Str → β) (s : Client
         simp only [clientStep, mem_singleton] at ho
         subst ho
         simp only [Prod.mk.injEq, ClientOut.presence.injEq] at he
-        obtain ⟨rfl, rfl⟩ := he
-        exact ⟨rfl, fun x => (advertised_eq_answered H s.cfg x).1⟩
+        obtain ⟨rfl, he⟩ := he
+        split at he
+        · simp at he
+        · simp only [Option.some.injEq] at he
+          subst he
+          exact ⟨rfl, fun x => (advertised_eq_answered H s.cfg x).1⟩
     · exact ih _ hm
+
+/-- **The advertised node is always answered**: `node#anything`, the plain node and the empty node are never
+item-not-found, whatever characters the configured node contains. -/
+theorem advertised_node_always_answered (c : ClientCfg) (x : Str) :
+    answeredInfo c (c.node ++ '#' :: x) = some (capabilities c) ∧ answeredInfo c c.node = some (capabilities c) ∧
+    answeredInfo c [] = some (capabilities c) := by
+  have h := isPrefixOf_self_append c.node []
+  simp only [append_nil] at h
+  simp [answeredInfo, isPrefixOf_self_append, h]
 
 /-- …in particular a publication derived from the previous presence after a reconfiguration carries the NEW hash,
 and the query that follows is answered with it. -/
-theorem republish_after_reconfigure {β : Type} (H : Str → β) (s : ClientSt β) (c' : ClientCfg) (derived : Bool) (x : Str) :
+theorem republish_after_reconfigure {β : Type} (H : Str → β) (s : ClientSt β) (c' : ClientCfg) (derived : Bool) (x : Str)
+    (hs : s.cfg.node ≠ []) (hc : c'.node ≠ []) :
     (clientRun H s [.publish false, .configure c', .publish derived, .query (c'.node ++ '#' :: x)]).2 =
-      [(s.cfg, .presence (advertisedVer H s.cfg)), (c', .presence (advertisedVer H c')),
+      [(s.cfg, .presence (some (advertisedVer H s.cfg))), (c', .presence (some (advertisedVer H c'))),
        (c', .answer (some (advertisedVer H c')))] := by
-  simp [clientRun, clientStep, answeredInfo, isPrefixOf_self_append, advertisedVer]
+  simp [clientRun, clientStep, answeredInfo, isPrefixOf_self_append, advertisedVer, hs, hc]
 
 /-- **The answer lists every feature once** (XEP-0115 §5.4 item 4 makes a verifying peer reject a repeated feature),
 whatever the client and its extensions contribute — since eee8133. -/
@@ -349,6 +366,11 @@ example :
     ((clientRun (fun s => s) { cfg := cfgA } [.publish false, .configure { cfgA with name := ['x'] }, .publish true]).2.map (·.2)).length = 2 ∧
     ((clientRun (fun s => s) { cfg := cfgA } [.publish false, .configure { cfgA with name := ['x'] }, .publish true]).2.map (·.2))[0]? ≠
     ((clientRun (fun s => s) { cfg := cfgA } [.publish false, .configure { cfgA with name := ['x'] }, .publish true]).2.map (·.2))[1]? := by
+  decide +kernel
+/-- a capabilities node that itself contains `#` (XEP-0115 allows any URI): `node#ver` and the plain node are answered -/
+example : (answeredInfo { cfgA with node := "http://example.org/products#demo".toList } "http://example.org/products#demo#q07IKJEyjvHSyhy//CH0CxmKi8w=".toList).isSome = true ∧
+    (answeredInfo { cfgA with node := "http://example.org/products#demo".toList } "http://example.org/products#demo".toList).isSome = true ∧
+    (answeredInfo { cfgA with node := "http://example.org/products#demo".toList } "http://example.org/products".toList).isSome = false := by
   decide +kernel
 /-- the former repeated-feature witness (fixed by eee8133): `jabber:x:conference` contributed by the client and by an
 extension is answered once -/
